@@ -95,26 +95,26 @@ var Workers = map[string]func(w *pool.W, shard, n int, args []string) error{
 		return ScenarioWorker(w, scs, args[0], len(args) < 3 || args[2] != "gen-only")
 	},
 	"c06": func(w *pool.W, shard, n int, args []string) error {
-		return ScenarioWorker(w, shardOf(C06Scenarios(args[0]), shard, n), args[0], true)
+		return ScenarioWorker(w, shardOf(C06Scenarios(args[0]), shard, n), args[0], !genOnly(args))
 	},
 	"c07": func(w *pool.W, shard, n int, args []string) error {
-		return ScenarioWorker(w, shardOf(C07Scenarios(args[0]), shard, n), args[0], true)
+		return ScenarioWorker(w, shardOf(C07Scenarios(args[0]), shard, n), args[0], !genOnly(args))
 	},
 	"c08": func(w *pool.W, shard, n int, args []string) error {
-		return ScenarioWorker(w, shardOf(C08Scenarios(args[0]), shard, n), args[0], true)
+		return ScenarioWorker(w, shardOf(C08Scenarios(args[0]), shard, n), args[0], !genOnly(args))
 	},
 	"c10": func(w *pool.W, shard, n int, args []string) error {
-		return ScenarioWorker(w, shardOf(C10Scenarios(args[0]), shard, n), args[0], true)
+		return ScenarioWorker(w, shardOf(C10Scenarios(args[0]), shard, n), args[0], !genOnly(args))
 	},
 	"c11": func(w *pool.W, shard, n int, args []string) error {
-		return ScenarioWorker(w, shardOf(C11Scenarios(args[0]), shard, n), args[0], true)
+		return ScenarioWorker(w, shardOf(C11Scenarios(args[0]), shard, n), args[0], !genOnly(args))
 	},
-	"c12": func(w *pool.W, shard, n int, args []string) error { return C12Worker(w, shard, n, args[0]) },
+	"c12": func(w *pool.W, shard, n int, args []string) error { return C12Worker(w, shard, n, args[0], !genOnly(args)) },
 	"c04nested": func(w *pool.W, shard, n int, args []string) error {
-		return ScenarioWorker(w, shardOf(nestedScenarios(90000, "C04"), shard, n), args[0], true)
+		return ScenarioWorker(w, shardOf(nestedScenarios(90000, "C04"), shard, n), args[0], !genOnly(args))
 	},
 	"c14": func(w *pool.W, shard, n int, args []string) error {
-		return ScenarioWorker(w, shardOf(C14Scenarios(args[0]), shard, n), args[0], true)
+		return ScenarioWorker(w, shardOf(C14Scenarios(args[0]), shard, n), args[0], !genOnly(args))
 	},
 	"recrt": func(w *pool.W, shard, n int, args []string) error {
 		return ScenarioWorker(w, shardOf(RecScenarios(args[0]), shard, n), args[0], true)
@@ -185,3 +185,5 @@ func runAllFamilies(r *ev.Run) {
 	}
 	r.Cov["rule"] = rtPairRule + "; additionally every accepted scenario of the families " + fmt.Sprint(allFamilies) + " (struct/field settings, custom functions, error wrapping, enums, update, default, settings table, signatures incl. goverter:variables) is generated by the CLI, compiled with API assertions and its emitted files inspected"
 }
+
+func genOnly(args []string) bool { return len(args) > 2 && args[2] == "gen-only" }
